@@ -493,12 +493,14 @@ theorem parseLoop_source (src org : Str) (bs bo : List Nat) (X : List Str) (s : 
   rw [parseLoop_blank _ _ _ (blank_block_tail c!"SOURCE" src bs),
     parseLoop_blank _ _ _ (blank_subblock c!" ORGANISM" org bo)]
 
-theorem locusLine_kw (l : RLocus) (n : Nat) (ℓ : RecLayout) :
-    trimSpace (headOf (split (locusLine l n ℓ) c!" ")) = c!"LOCUS" := by
-  rw [locusLine_eq]
+theorem locusLine_kw (l : RLocus) (ℓ : RecLayout) :
+    trimSpace (headOf (split (locusLine l ℓ) c!" ")) = c!"LOCUS" := by
   show trimSpace (headOf (splitC ' ' _)) = _
-  simp only [L]
-  rw [splitC_gap _ _ _ (by decide)]
+  have : ∃ k R, locusLine l ℓ = c!"LOCUS" ++ (spaces (k + 1) ++ R) := by
+    refine ⟨ℓ.pads.getD 0 0, l.name ++ gapped ((locusToks l ℓ).drop 1) ++ spaces ℓ.locusTrail, ?_⟩
+    simp [locusLine, locusToks, gapped, List.append_assoc]
+  obtain ⟨k, R, hk⟩ := this
+  rw [hk, splitC_gap _ _ _ (by decide)]
   simp only [headOf]
   decide
 
@@ -653,7 +655,7 @@ theorem parseLoop_layout_loose (r : GbRec) (ℓ : RecLayout) (tail : List Str) (
   rw [show (if ℓ.originTrail = true then c!"ORIGIN      " else c!"ORIGIN") = originHead ℓ from rfl]
   -- LOCUS
   simp only [parseLoop]
-  rw [parseStep_locus _ _ _ (locusLine_kw r.locus r.seq.length ℓ), parseLocus_locusLine r.locus r.seq.length ℓ hlocus]
+  rw [parseStep_locus _ _ _ (locusLine_kw r.locus ℓ), parseLocus_locusLine r.locus ℓ hlocus]
   simp only [Outcome.bind_ok']
   -- slot 0, DEFINITION, slot 1, ACCESSION, slot 2, VERSION, slot 3, KEYWORDS
   rw [parseLoop_extraSlot r ℓ 0 _ _ hex' hexd rfl hD]
